@@ -132,6 +132,31 @@ def _minimal_app(server: RpcServer) -> Any:
                          enable_describe_page=False, enable_health_endpoint=False)
 
 
+_ADV_REQ: list[bytes] = []
+_SEGMENT: list[Any] = []
+
+
+def _client_segment() -> Any:
+    """One client-owned segment per check process, unlinked at exit."""
+    if not _SEGMENT:
+        import atexit
+
+        from vgi_rpc.shm import ShmSegment
+
+        seg = ShmSegment.create(1 << 20)
+        _SEGMENT.append(seg)
+
+        def _drop() -> None:
+            for f in (seg.unlink, seg.close):
+                try:
+                    f()
+                except Exception:
+                    pass
+
+        atexit.register(_drop)
+    return _SEGMENT[0]
+
+
 def _capture_requests() -> tuple[bytes, dict[str, tuple[str, bytes, dict[str, str]]]]:
     """Record the bytes a real client sends for ``ping()`` over a pipe and over HTTP (done once, unscheduled)."""
 
@@ -149,6 +174,15 @@ def _capture_requests() -> tuple[bytes, dict[str, tuple[str, bytes, dict[str, st
     except Exception:  # the empty reader makes the client fail after it has written the request
         pass
     pipe_req = w.getvalue()
+    # the same request from a client that owns a shared-memory segment and advertises it in the request metadata (the
+    # server attaches it per connection although the transport it serves is a plain pipe / socket)
+    w2 = _KeepBytesIO()
+    try:
+        with RpcConnection(_Svc, ShmPipeTransport(PipeTransport(io.BytesIO(b""), w2), _client_segment())) as svc:
+            svc.ping()
+    except Exception:
+        pass
+    _ADV_REQ.append(w2.getvalue())
 
     posts: list[tuple[str, bytes, dict[str, str]]] = []
     inner = _SyncTestClient(_minimal_app(RpcServer(_Svc, Impl())))
@@ -178,6 +212,8 @@ _OPS: dict[str, tuple[str, tuple[str, tuple[str, ...]], bool]] = {
     "http_init": ("http", ("http", ()), True),
     "http_exch": ("http", ("http", ()), True),
     "pipe": ("serve", ("pipe", ()), True),
+    "pipe_adv": ("serve", ("pipe", ()), True),  # plain pipe; the client's request advertises its own shm segment
+    "unix_adv": ("serve", ("unix", ()), True),
     "pipe_eof": ("serve", ("pipe", ()), False),
     "shm": ("serve", ("pipe", ("shm",)), True),
     "shm_eof": ("serve", ("pipe", ("shm",)), False),
@@ -189,7 +225,7 @@ _OPS: dict[str, tuple[str, tuple[str, tuple[str, ...]], bool]] = {
 
 
 def _transport(op: str) -> Any:
-    reader = io.BytesIO(_PIPE_REQ if _OPS[op][2] else b"")
+    reader = io.BytesIO((_ADV_REQ[0] if op.endswith("_adv") else _PIPE_REQ) if _OPS[op][2] else b"")
     writer = io.BytesIO()
     base = op.split("_")[0]
     if base == "pipe":
@@ -448,5 +484,5 @@ def run_case(case: dict[str, Any]) -> Outcome:
 
 def main(chk: Check) -> None:
     chk.explore("first_requests", _cases(["http", "http", "http_init", "http_exch"], 2), run_case, quick=500, thorough=12000)
-    chk.explore("mixed", _cases(["http", "http_init", "http_exch", "pipe", "pipe_eof", "shm", "shm_eof", "unix", "unix_eof", "tcp_eof"], 3),
+    chk.explore("mixed", _cases(["http", "http_init", "http_exch", "pipe", "pipe_adv", "unix_adv", "pipe_eof", "shm", "shm_eof", "unix", "unix_eof", "tcp_eof"], 3),
                 run_case, quick=900, thorough=24000)
